@@ -40,7 +40,7 @@ def main():
             notes["demo_with_patch_exit"] = r1.returncode
             notes["demo_output_with_patch"] = r1.stdout[-400:]
             ok = (r0.returncode == 0 and r1.returncode == 1 and notes["tests_passed_with_patch"] == 121
-                  and not notes["tests_failed_with_patch"] and all(f.startswith("src/wormhole_mailbox_server/") and "/test/" not in f for f in files))
+                  and not notes["tests_failed_with_patch"] and all((f.startswith("src/wormhole_mailbox_server/") or f.startswith("docs/")) and "/test/" not in f for f in files))
         finally:
             sh(["git", "-C", "/repo", "worktree", "remove", "--force", wt])
             shutil.rmtree(wt, ignore_errors=True)
